@@ -696,7 +696,9 @@ def do_replay_file(prop, path):
     if "function" not in doc:
         print(json.dumps(doc, indent=1)[:4000])
         return 0
-    res = _replay_item((doc["function"], doc["inputs"], [doc["obligation"]], prop, doc.get("awaits")))
+    # a counter-model over undeclared attributes was confirmed by a two-call history: replayed the same way
+    repeated = str((doc.get("native_replay") or {}).get("mode", "")).startswith("history of two identical calls")
+    res = _replay_item((doc["function"], doc["inputs"], [doc["obligation"]], prop, doc.get("awaits")), repeated=repeated)
     print(json.dumps(res, indent=1, default=str))
     bad = [j for j in res.get("judgements", []) if j[1] is False]
     if bad:
